@@ -2,8 +2,8 @@
    type tree of Model/GoType.v.  One clause per branch of the Go code; line numbers refer
    to schema_generator.go.  Naming tables (declsByName, unique suffixes) are not part of
    this file: a declared type carries the name its scope gives it (Model/Ident.v has the
-   de-duplication).  allOf / anyOf are handled in Model/Merge.v. *)
-From GJS Require Export Base Bounds IntSize Regex Schema GoType Ident.
+   de-duplication).  allOf: the branches are resolved and merged (Model/Merge.v) and the merged schema is generated inline; anyOf: GUnmod. *)
+From GJS Require Export Base Bounds IntSize Regex Schema GoType Ident Merge.
 
 Inductive res (A : Type) := Done (a : A) | GErr | GUnmod | GFuel.
 Arguments Done {A} a. Arguments GErr {A}. Arguments GUnmod {A}. Arguments GFuel {A}.
@@ -222,6 +222,29 @@ Definition build_struct (s : schema) (b0 : bounds) (infos : list finfo) : res (g
   | _, _ => Done (TStruct [] fields (Some (reqs ++ fvs)), b0)
   end.
 
+(* resolveRefs (1150-1186): a branch given by reference is replaced by the schema of the definition it names;
+   definitions that are themselves references, enums or composites are outside the model *)
+Definition resolve_branches (bs : list schema) : res (list schema) :=
+  rmap (fun b =>
+          match c_ref (s_con b) with
+          | None => Done b
+          | Some x =>
+              match lookup x defs with
+              | None => GErr
+              | Some d =>
+                  match c_ref (s_con d), c_enum (s_con d), s_all_of d, s_any_of d, c_types (s_con d), s_props d with
+                  | None, None, [], [], _ :: _, _ | None, None, [], [], _, _ :: _ => Done d
+                  | _, _, _, _, _, _ => GUnmod
+                  end
+              end
+          end) bs.
+
+(* generateAllOfType (857-869): resolve, merge, generate the merged schema inline *)
+Definition all_of_schema (bs : list schema) : res schema :=
+  rbind (resolve_branches bs) (fun rs =>
+    if existsb (fun b => match s_all_of b, s_any_of b with [], [] => false | _, _ => true end) rs then GUnmod
+    else match merge_types rs with Some m => Done m | None => GUnmod end).
+
 Definition prop_names (props : list (str * schema)) : list (str * (str * schema)) :=
   let sorted := sort_props props in
   combine (field_names (map (fun kp => idf (fst kp)) sorted)) sorted.
@@ -240,7 +263,7 @@ Fixpoint gen (fuel : nat) (m : mode) (self : option str) (sub : bool) (s : schem
       | None, None =>
           match s_any_of s, s_all_of s with
           | _ :: _, _ => GUnmod
-          | [], _ :: _ => GUnmod
+          | [], (_ :: _) as bs => rbind (all_of_schema bs) (fun m => gen f MInline self false m scope)
           | [], [] =>
               match c_types c with
               | [] => Done (TIface, b0)
